@@ -74,7 +74,7 @@ pub fn owns(prop: &str, kind: &ViolationKind, msg: &str) -> bool {
 }
 
 /// emulators that exist so far
-pub const BUILT: &[Isa] = &[Isa::X86];
+pub const BUILT: &[Isa] = &[Isa::X86, Isa::A64, Isa::Rv];
 
 pub fn isas_for(prop: &str) -> Vec<Isa> {
     isas_wanted(prop).into_iter().filter(|i| BUILT.contains(i)).collect()
